@@ -184,4 +184,12 @@ def run (env : Env) (limit : Nat) (d : Doc) (input : List Byte) : Code × Doc ×
   let d := { d with pl := PL.shrink d.g d.pl }
   (c, d, x.r.pos)
 
+/-- `deserializeMsgPack(JsonVariant dst, …)` into a value inside a document -/
+def runAt (env : Env) (limit : Nat) (d : Doc) (l : Loc) (input : List Byte) : Code × Doc × Nat :=
+  let d := d.clearV l
+  let (c, x, found) := parseVariant env (2 * input.length + 4) limit l { r := { unread := input }, d := d }
+  let c := if found then c else .empty
+  let d := match x.b with | some _ => { x.d with pl := x.d.pl.dealloc } | none => x.d
+  (c, d, x.r.pos)
+
 end MDD
